@@ -362,8 +362,9 @@ def c18(res, tier, seed, replay):
         "labels are a reading of the documentation and of the `binding` tags of the request structs; where neither says anything "
         "(null elements, unknown fields, duplicate keys, odd uuid spellings, beyond-int64 values in unbounded fields, reserved names) "
         "the case is labelled `either`",
-        "mustAccept demands 2xx: a valid request refused with 4xx is reported (known finding C18-msgpack-number-width) although the "
-        "property text only forbids 5xx for it",
+        "mustAccept demands 2xx, except for MessagePack numbers sent in another wire width than the Go field (float64 for float32, "
+        "int8/16 for an integer field): the pinned code refuses those with 400 and changes nothing, which the property allows, so "
+        "they are judged by the either rule (first reported as a finding: a false alarm of the check, corrected)",
         "the digest of a collection = GET collection (shard ids blanked) + the points with known ids + an integer range read; the "
         "reference world is restored (collections re-created and re-seeded) after every request that changed it, and TLC checks "
         "that the restored digests equal the reference",
